@@ -332,7 +332,7 @@ func (b *Block) Value() (interface{}, error) {
 		if uint64(end) > uint64(len(blockData)-4) {
 			return nil, errors.New("cram: invalid file header text length")
 		}
-		err = h.UnmarshalText(blockData[4 : 4+end])
+		err = h.UnmarshalText(blockData[4 : 4+uint64(end)])
 		if err != nil {
 			return nil, err
 		}
